@@ -44,6 +44,9 @@ def body(env, prog, conn):
         return v
 
     env.keep = None  # the previous execution's handle goes away now, not at a random moment
+    if getattr(env, "coll2", None) is not None:
+        env.coll2._backend._write_queue.clear()
+    env.coll2 = None
     env.exit_funcs = []
     env.capturing = True  # what the library registers with atexit is collected, not registered
     env.nonblocking = False
@@ -126,6 +129,13 @@ def body(env, prog, conn):
 
 
 def do_session(env, coll, sess):
+    if sess.get("lib2"):
+        # a session on ANOTHER library of the same process (its own handle, kept between sessions)
+        c2 = getattr(env, "coll2", None)
+        if c2 is None or getattr(env, "coll2_path", None) != sess["lib2"]:
+            c2 = Collection(sess["lib2"], UkvCollectionBackend, readonly=False, bufsize=BUFS["large"])
+            env.coll2, env.coll2_path = c2, sess["lib2"]
+        coll = c2
     env.begin_session(sess.get("fault"))
     e = {"kind": sess["kind"], "puts": sess.get("puts", []), "puts_ok": [], "dup_rejected": [], "listed": None, "reads": {}, "exc": None}
     timeout = 0 if sess.get("timeout") else None
@@ -183,6 +193,7 @@ def do_session(env, coll, sess):
     e["file_closed_after"] = True if uf is None else bool(uf.closed and getattr(uf._stream, "closed", True))
     e["fault_fired"] = env.fault_fired
     e["queue_after"] = len(be._write_queue)
+    e["lib2"] = bool(sess.get("lib2"))
     return e
 
 
@@ -234,6 +245,7 @@ class Bench:
         if not link.exists():
             os.symlink(self.root / "real", link)
         self.lib = self.root / "real" / "lib.mlib"
+        self.lib2 = self.root / "real" / "other.mlib"
         from molli._aux.lock import rwlock
 
         self.lockpath = rwlock(self.lib)
@@ -252,6 +264,13 @@ class Bench:
         raise ValueError(how)
 
     def reset_env(self):
+        from molli._aux.lock import rwlock as _rw
+
+        for p in (self.lib2, _rw(self.lib2)):
+            try:
+                os.unlink(p)
+            except FileNotFoundError:
+                pass
         for p in (self.lib, self.lockpath):
             try:
                 os.unlink(p)
@@ -267,6 +286,9 @@ class Bench:
         for wid, w in enumerate(spec):
             sp, cwd = self.spelled(wid, w["spelling"])
             ro = bool(w.get("ro"))
+            for sdict in w["sessions"]:
+                if sdict.get("lib2"):
+                    sdict["lib2"] = str(self.lib2)
             progs.append({"lib": str(self.lib), "spelled": sp, "cwd": cwd, "ro": ro, "buf": w["buf"], "sessions": w["sessions"], "sched_ctor": bool(w.get("sched_ctor")), "exits": bool(w.get("exits")), "recreate": w.get("recreate"), "unpickle": self._blob() if w.get("unpickle") else None, "cfg_route": (w["cfg_route"], str(self.root / "site_shared")) if w.get("cfg_route") else None})
         if any(w.get("cfg_route") for w in spec):
             self.lockpath = self.root / "site_shared" / "lock" / self.lockpath.name
@@ -301,6 +323,8 @@ def _val(wid, si, j, seed):
 
 
 def fault_context(spec):
+    if any(s.get("lib2") for w in spec for s in w["sessions"]):
+        return "two-libraries-in-one-process"
     if any(w.get("unpickle") for w in spec):
         return "handles-received-by-pickle"
     if any(w.get("recreate") for w in spec):
@@ -363,6 +387,12 @@ def judge(bench: Bench, spec, x: schedx.Execution):
                     out.append(("state-after-timed-out-session", f"worker {wid} session {si}: state {e['state_after']!r} / file open after a timed-out attempt"))
                 continue
             failed = e["exc"] is not None
+            if e.get("lib2"):
+                if failed:
+                    out.append((f"session-raised[{e['exc']}]", f"worker {wid} session {si} on the second library raised {e['exc']}: {e.get('exc_msg')} although nothing was injected into it"))
+                if e["state_after"] != "idle" or not e["file_closed_after"]:
+                    out.append(("state-not-idle-after-session", f"worker {wid} session {si} (second library): state {e['state_after']!r} / file open after the session"))
+                continue
             faulted = bool(spec[wid]["sessions"][si].get("fault")) and e["fault_fired"]
             if faulted and spec[wid]["sessions"][si]["fault"][0] in ("write", "poison"):
                 any_write_fault = True
@@ -409,6 +439,31 @@ def judge(bench: Bench, spec, x: schedx.Execution):
         recs, _, clean = parse_ukv(bench.lib.read_bytes())
         if not clean or {k.decode(): v for k, v in recs} != final or len(recs) != len(final):
             out.append(("file-not-wellformed", "the file does not parse as header|complete records holding exactly what a reader lists"))
+    # the second library of the process holds exactly what its own completed sessions stored
+    exp2 = {}
+    has2 = False
+    for wid, log in enumerate(logs):
+        for e in log:
+            if e.get("lib2"):
+                has2 = True
+                if e["exc"] is None:
+                    exp2.update({k: v for k, v in e["puts"] if k in e["puts_ok"]})
+    if has2:
+        try:
+            c2 = Collection(bench.lib2, UkvCollectionBackend, readonly=True)
+            atexit.unregister(c2._backend.flush)
+            with c2.reading(timeout=0.5):
+                got2 = {k: c2[k] for k in sorted(c2.keys())}
+        except Exception as ex:
+            out.append((f"final-read-raised[{type(ex).__name__}]", f"a fresh reader of the second library failed: {ex}"))
+        else:
+            for k in sorted(set(got2) - set(exp2)):
+                out.append(("foreign-record[second-library]", f"the second library holds {k!r}, which was never stored in it"))
+            for k, v in exp2.items():
+                if k not in got2:
+                    out.append(("completed-record-lost[second-library]", f"record {k!r} stored in the second library in a completed session is missing"))
+                elif got2[k] != v:
+                    out.append(("completed-record-altered[second-library]", f"record {k!r} of the second library reads back differently"))
     if recreators:
         _, hdr, _ = parse_ukv(bench.lib.read_bytes())
         if hdr[1] != new_comment:
@@ -449,7 +504,7 @@ def judge(bench: Bench, spec, x: schedx.Execution):
                 e = logs[wid][si]
                 # only a session that completed commits its records for later readers; what a
                 # failed session leaves behind is complete-or-absent and may surface later
-                if e["exc"] is None:
+                if e["exc"] is None and not e.get("lib2"):
                     for k in e["puts_ok"]:
                         if k in final:
                             visible.add(k)
@@ -649,6 +704,29 @@ def cfg_route_specs(ctx, spellings):
     return specs
 
 
+def twolib_specs(ctx):
+    """ONE process works on two libraries in strictly sequential sessions; a session on the first one may fail
+    in its exit flush (an item that can never be written, n-th write fails) and leave something queued"""
+    specs = []
+    for buf in ("large", "dflt"):
+        for fk in (None, "poison", "write", "flush"):
+            for order in ((1, 2, 1, 1), (2, 1, 2, 1), (1, 2, 2, 1)):
+                ss = []
+                for si, which in enumerate(order):
+                    if which == 1:
+                        d = mk_sessions(0, ("W",) * (si + 1), ctx.seed)[si] if si < 3 else {"kind": "R"}
+                    else:
+                        d = {"kind": "W", "lib2": True, "puts": [(f"o{si}a", _val(9, si, 0, ctx.seed)), (f"o{si}b", _val(9, si, 1, ctx.seed))]}
+                    ss.append(d)
+                if fk:
+                    first1 = next(i for i, w in enumerate(order) if w == 1)
+                    ss[first1]["fault"] = (fk, 1 if fk in ("poison", "write") else 0)
+                    if fk in ("write", "flush"):
+                        ss[first1]["puts"] = [(k, bytes(400)) for k, _ in ss[first1]["puts"]]
+                specs.append([{"spelling": "abs", "buf": buf, "ro": False, "sessions": ss}])
+    return specs
+
+
 def unpickle_specs(ctx, nworkers):
     """every worker receives its handle pickled by the parent (which created the library with overwrite=True)
     and unpickles it under the scheduler - at any moment relative to the other workers' sessions"""
@@ -843,7 +921,7 @@ def run(ctx):
         "one injected exception at every fault point (body, encoder, n-th file write, close, open, final flush that loses the buffered "
         "bytes, an item that can never be written) of a session, the faulted writes carrying zero-filled values; writing sessions that "
         "read an earlier record before they store new ones; handles that arrive pickled from a parent that created the library with "
-        "overwrite=True and are unpickled under the scheduler; a construction family in which the handles are created under the scheduler; a lifecycle family with "
+        "overwrite=True and are unpickled under the scheduler; one process working on two libraries in sequential sessions, one of which fails in its exit flush; a construction family in which the handles are created under the scheduler; a lifecycle family with "
         "sessions that give up after a timeout and processes that exit normally (captured atexit hooks run under the scheduler) while "
         "others continue; a re-creation family in which another process creates the library anew (overwrite=True, header of another "
         "length) before, between or after the sessions of a long-lived handle; a configuration family in which the processes learn "
@@ -881,6 +959,7 @@ def run(ctx):
         ctx.pmap(part_plain, [(2, 2, c) for c in chunks(cfg_route_specs(ctx, list(sp_q)), 4)], nproc=nproc)
         ctx.pmap(part_plain, [(2, 1, c) for c in chunks(mixed_specs(ctx, list(sp_q)), nproc)], nproc=nproc)
         ctx.pmap(part_plain, [(2, 2, c) for c in chunks(unpickle_specs(ctx, 2), nproc)], nproc=nproc)
+        ctx.pmap(part_plain, [(1, 0, c) for c in chunks(twolib_specs(ctx), nproc)], nproc=nproc)
         model_family(ctx, 2, beh2, nproc)
         ctx.bound = {"processes": 2, "sessions_total": 4, "preemptions": bound, "fault_family_preemptions": 1, "faults_per_execution": 1, "path_spellings": list(sp_q) + ["rel+sym in the fault family"]}
     else:
@@ -899,6 +978,7 @@ def run(ctx):
         ctx.pmap(part_plain, [(2, 2, c) for c in chunks(mixed_specs(ctx, sp2[:2]), nproc)], nproc=nproc)
         ctx.pmap(part_plain, [(2, 3, c) for c in chunks(unpickle_specs(ctx, 2), nproc)], nproc=nproc)
         ctx.pmap(part_plain, [(3, 2, c) for c in chunks(unpickle_specs(ctx, 3)[::3], nproc)], nproc=nproc)
+        ctx.pmap(part_plain, [(1, 0, c) for c in chunks(twolib_specs(ctx), nproc)], nproc=nproc)
         model_family(ctx, 2, beh2, nproc)
         model_family(ctx, 3, beh3, nproc)
         ctx.bound = {"processes": "2 (bound 3) and 3 (bound 2)", "sessions_total": "4 / 4", "fault_family_preemptions": 2, "faults_per_execution": 1, "path_spellings": sp2}
